@@ -85,19 +85,19 @@ Proof. intros A B. apply (reads_app md [l] s md1 ls ss md2); [apply reads_line; 
 Definition body_mode (md : mode) : Prop := match md with MTop => False | _ => True end.
 
 Lemma cl_kw_plain md l s md' : body_mode md ->
-  match l with t :: _ => (str_eqb t k_inputs || str_eqb t k_outputs || str_eqb t k_clock || str_eqb t k_param ||
+  match l with t :: _ => (str_eqb t k_hash || str_eqb t k_inputs || str_eqb t k_outputs || str_eqb t k_clock || str_eqb t k_param ||
                           str_eqb t k_cname || str_eqb t k_attr || is_row_tok t) = false | [] => False end ->
   cl_plain l = Ok (s, md') -> cl_line md l = Ok (s, md').
 Proof.
   intros Hb Hk H. destruct l as [|t rest]; [destruct Hk|].
   apply orb_false_iff in Hk as [Hk Hrow]. apply orb_false_iff in Hk as [Hk Hattr].
   apply orb_false_iff in Hk as [Hk Hcname]. apply orb_false_iff in Hk as [Hk Hparam].
-  apply orb_false_iff in Hk as [Hk Hclock]. apply orb_false_iff in Hk as [Hin Hout].
+  apply orb_false_iff in Hk as [Hk Hclock]. apply orb_false_iff in Hk as [Hk Hout]. apply orb_false_iff in Hk as [Hhash Hin].
   destruct md; cbn [cl_line]; try contradiction.
-  - unfold cl_hdr. rewrite Hin, Hout, Hclock. cbn [andb]. exact H.
+  - unfold cl_hdr. rewrite Hhash, Hin, Hout, Hclock. exact H.
   - exact H.
-  - unfold cl_rows, cl_info. rewrite Hrow, Hparam, Hcname, Hattr. exact H.
-  - unfold cl_info. rewrite Hparam, Hcname, Hattr. exact H.
+  - unfold cl_rows, cl_info. rewrite Hhash, Hrow, Hparam, Hcname, Hattr. exact H.
+  - unfold cl_info. rewrite Hhash, Hparam, Hcname, Hattr. exact H.
 Qed.
 
 Lemma row_not_kw t kw : is_row_tok t = true -> is_row_tok kw = false -> str_eqb t kw = false.
@@ -214,13 +214,13 @@ Proof.
     rewrite (written_insts_eq ms m (inst_lines ms m)).
     apply (reads_cons MTop _ [SModel (m_name m)] (MHdr 0)); [reflexivity|].
     apply (reads_cons (MHdr 0) _ [SInputs _] (MHdr 0)); [reflexivity|].
-    apply (reads_cons (MHdr 0) _ [SOutputs _] (MHdr 1)); [reflexivity|].
+    apply (reads_cons (MHdr 0) _ [SOutputs _] (MHdr 0)); [reflexivity|].
     destruct (m_clock m) as [c|]; cbn [app].
-    + apply (reads_cons (MHdr 1) _ [SClock c] (MHdr 2)); [reflexivity|].
-      destruct (reads_insts ms m (written_insts m) (MHdr 2) I Hc') as [md' [Hb' Hr]].
+    + apply (reads_cons (MHdr 0) _ [SClock c] (MHdr 0)); [reflexivity|].
+      destruct (reads_insts ms m (written_insts m) (MHdr 0) I Hc') as [md' [Hb' Hr]].
       eapply reads_app; [exact Hr|]. apply (reads_cons md' _ [SEnd] MTop); [apply rd_end; exact Hb'|].
       apply (reads_cons MTop [] [] MTop); [reflexivity|apply reads_nil].
-    + destruct (reads_insts ms m (written_insts m) (MHdr 1) I Hc') as [md' [Hb' Hr]].
+    + destruct (reads_insts ms m (written_insts m) (MHdr 0) I Hc') as [md' [Hb' Hr]].
       eapply reads_app; [exact Hr|]. apply (reads_cons md' _ [SEnd] MTop); [apply rd_end; exact Hb'|].
       apply (reads_cons MTop [] [] MTop); [reflexivity|apply reads_nil].
   - (* LWork *)
@@ -229,13 +229,13 @@ Proof.
     rewrite (written_insts_eq ms m (inst_lines ms m)).
     apply (reads_cons MTop _ [SModel (m_name m)] (MHdr 0)); [reflexivity|].
     apply (reads_cons (MHdr 0) _ [SInputs _] (MHdr 0)); [reflexivity|].
-    apply (reads_cons (MHdr 0) _ [SOutputs _] (MHdr 1)); [reflexivity|].
+    apply (reads_cons (MHdr 0) _ [SOutputs _] (MHdr 0)); [reflexivity|].
     destruct (m_clock m) as [c|]; cbn [app].
-    + apply (reads_cons (MHdr 1) _ [SClock c] (MHdr 2)); [reflexivity|].
-      destruct (reads_insts ms m (written_insts m) (MHdr 2) I Hc') as [md' [Hb' Hr]].
+    + apply (reads_cons (MHdr 0) _ [SClock c] (MHdr 0)); [reflexivity|].
+      destruct (reads_insts ms m (written_insts m) (MHdr 0) I Hc') as [md' [Hb' Hr]].
       eapply reads_app; [exact Hr|]. apply (reads_cons md' _ [SEnd] MTop); [apply rd_end; exact Hb'|].
       apply (reads_cons MTop [] [] MTop); [reflexivity|apply reads_nil].
-    + destruct (reads_insts ms m (written_insts m) (MHdr 1) I Hc') as [md' [Hb' Hr]].
+    + destruct (reads_insts ms m (written_insts m) (MHdr 0) I Hc') as [md' [Hb' Hr]].
       eapply reads_app; [exact Hr|]. apply (reads_cons md' _ [SEnd] MTop); [apply rd_end; exact Hb'|].
       apply (reads_cons MTop [] [] MTop); [reflexivity|apply reads_nil].
 Qed.
@@ -245,8 +245,8 @@ Proof.
   unfold blackbox_lines, bb_stmts.
   apply (reads_cons MTop _ [SModel (m_name m)] (MHdr 0)); [reflexivity|].
   apply (reads_cons (MHdr 0) _ [SInputs _] (MHdr 0)); [reflexivity|].
-  apply (reads_cons (MHdr 0) _ [SOutputs _] (MHdr 1)); [reflexivity|].
-  apply (reads_cons (MHdr 1) _ [SBlackbox] MPlain); [reflexivity|].
+  apply (reads_cons (MHdr 0) _ [SOutputs _] (MHdr 0)); [reflexivity|].
+  apply (reads_cons (MHdr 0) _ [SBlackbox] MPlain); [reflexivity|].
   apply (reads_cons MPlain _ [SEnd] MTop); [reflexivity|].
   apply (reads_cons MTop [] [] MTop); [reflexivity|apply reads_nil].
 Qed.
@@ -264,9 +264,9 @@ Proof.
   apply (reads_cons MTop _ [SComment c] MTop); [reflexivity|exact IH].
 Qed.
 
-Theorem classify_emit n : covers_ok n = true -> classify (emit n) = Ok (stmts_of n).
+Theorem classify_emit n : covers_ok n = true -> tokenized (emit n) = true -> classify (emit n) = Ok (stmts_of n).
 Proof.
-  intro Hc. unfold classify. rewrite emit_eq.
+  intros Hc Ht. unfold classify. rewrite Ht. rewrite emit_eq.
   assert (R : reads MTop (map (fun c => k_hash :: c) (b_comments n) ++ [generated_by; []] ++
            flat_map (fun nm => model_lines (b_models n) (get_model nm (b_models n))) (written_names n) ++
            flat_map (fun nm => blackbox_lines (get_model nm (b_models n))) (written_bbs n)) (stmts_of n) MTop).
